@@ -213,7 +213,16 @@ func checkC10(c *core.Ctx) {
 			return
 		}
 		det := map[string]any{"text": short(text, 1500), "args": strings.Join(args, " ")}
-		conv := run(c, []byte(text), args...)
+		// delivery of the text: at once, in pieces with pauses (short reads), with --debug (log lines belong on stderr)
+		copt := runner.Opt{Stdin: []byte(text)}
+		cargs := args
+		if i%6 == 2 {
+			copt.StdinPieces = 2 + i%3
+		}
+		if i%8 == 5 {
+			cargs = append([]string{"--debug"}, args...)
+		}
+		conv := c.Crd.Run(copt, cargs...)
 		c.Eval(1)
 		if infra(c, conv) {
 			return
@@ -253,8 +262,12 @@ func checkC10(c *core.Ctx) {
 			c.Violate("pipeline", i, "pipeline:parse-differs", "text conv | write parse: "+probs[0], det)
 			return
 		}
-		// write
-		w := run(c, conv.Stdout, append([]string{"write"}, wargs...)...)
+		// write (every seventh time the document is a FILE argument that is a pipe)
+		wa := append([]string{"write"}, wargs...)
+		if i%7 == 3 {
+			wa = append(wa, "/dev/stdin")
+		}
+		w := run(c, conv.Stdout, wa...)
 		c.Eval(1)
 		if infra(c, w) {
 			return
